@@ -130,6 +130,8 @@ def path_conditions(fn, target, start_block=None, limit=4000):
     count = [0]
     complete = [True]
 
+    from .cfg import eval3
+
     def rec(b, conds, visited):
         if count[0] > limit:
             complete[0] = False
@@ -142,12 +144,19 @@ def path_conditions(fn, target, start_block=None, limit=4000):
         if B.abort:
             return
         two = B.cond is not None and len(B.raw_succs) == 2 and B.termk != "SwitchStmt"
+        known = None
+        if two:
+            facts = {c.id: t for c, t in conds}
+            known = eval3(B.cond, facts)
         for i, s in enumerate(B.succs):
             if s is None or s in visited:
                 continue
             if two:
+                side = (i == 0)
+                if known is not None and known != side:
+                    continue            # this side contradicts what the path already decided (join of a logical expression)
                 core, neg = X.strip_bool(B.cond)
-                c = (core, (i == 0) ^ neg)
+                c = (core, side ^ neg)
                 rec(s, conds + [c], visited | {s})
             else:
                 rec(s, conds, visited | {s})
